@@ -64,6 +64,11 @@ pub struct Violation {
     pub msg: String,
 }
 
+pub fn trace_live() -> bool {
+    static LIVE: std::sync::OnceLock<bool> = std::sync::OnceLock::new();
+    *LIVE.get_or_init(|| std::env::var_os("VERIF_TRACE").is_some())
+}
+
 pub enum Panicked {
     Injected,
     Msg(String),
@@ -119,11 +124,12 @@ pub const OP_MUTATE: u32 = 18;
 pub const OP_SWAP: u32 = 19;
 pub const OP_BULK_PUSH: u32 = 20;
 pub const OP_DROP_NEW: u32 = 21;
-pub const OP_COUNT: u32 = 22;
+pub const OP_LAZY: u32 = 22;
+pub const OP_COUNT: u32 = 23;
 
 pub const OP_NAMES: [&str; OP_COUNT as usize] = [
     "push", "insert", "pop", "remove", "swap_remove", "clear", "get", "iter", "drain", "splice", "clone", "clone_empty_in", "reserve",
-    "reserve_exact", "shrink_to_fit", "shrink_to", "raw_parts", "write_spare", "mutate", "swap", "bulk_push", "drop_new",
+    "reserve_exact", "shrink_to_fit", "shrink_to", "raw_parts", "write_spare", "mutate", "swap", "bulk_push", "drop_new", "lazy",
 ];
 
 pub const fn ops(list: &[u32]) -> u64 {
@@ -138,6 +144,7 @@ pub const fn ops(list: &[u32]) -> u64 {
 
 pub const OPS_C01: u64 = ops(&[OP_PUSH, OP_INSERT, OP_POP, OP_REMOVE, OP_SWAP_REMOVE, OP_CLEAR, OP_GET, OP_ITER]);
 pub const OPS_C02: u64 = ops(&[OP_DRAIN, OP_SPLICE]);
+pub const OPS_CAP: u64 = ops(&[OP_RESERVE, OP_RESERVE_EXACT, OP_SHRINK_FIT, OP_SHRINK_TO]);
 
 /// value-source kinds for push / insert / splice items
 #[derive(Clone, Copy, Debug, PartialEq, Eq)]
@@ -509,8 +516,12 @@ impl<C: Cfg> World<C> {
             if cap <= len {
                 continue;
             }
-            let n = (cap - len).min(4096) * size;
+            let n = ((cap - len).min(4096) * size).min(32 << 10);
             let base = v.downcast_mut::<C::T>().unwrap().as_mut_ptr() as *mut u8;
+            // storage served virtually (huge request): only the first VIRT_SIZE bytes exist
+            if (len * size).saturating_add(n) > alloc::VIRT_SIZE && cap.saturating_mul(size) > alloc::VIRT_LIMIT {
+                continue;
+            }
             unsafe { std::ptr::write_bytes(base.add(len * size), elem::POISON, n) };
         }
     }
@@ -609,10 +620,15 @@ impl<C: Cfg> World<C> {
     }
 
     pub fn expect_panic<R>(&mut self, ctx: &str, r: &Result<R, Panicked>, must_panic: bool, why: &str) {
+        self.expect_panic_m(MON_MODEL, ctx, r, must_panic, why)
+    }
+
+    /// `mon`: monitors (besides validity) that own this expectation
+    pub fn expect_panic_m<R>(&mut self, mon: u32, ctx: &str, r: &Result<R, Panicked>, must_panic: bool, why: &str) {
         match (r, must_panic) {
-            (Ok(_), true) => self.fail(MON_MODEL, format!("{}:no-panic", ctx), format!("{}: returned normally although it must panic ({})", ctx, why)),
-            (Err(Panicked::Msg(m)), false) => self.fail(MON_MODEL | MON_VALID, format!("{}:panic", ctx), format!("{}: panicked unexpectedly: {}", ctx, m)),
-            (Err(Panicked::Injected), false) => self.fail(MON_MODEL, format!("{}:panic", ctx), format!("{}: injected fault without fault mode", ctx)),
+            (Ok(_), true) => self.fail(mon, format!("{}:no-panic", ctx), format!("{}: returned normally although it must panic ({})", ctx, why)),
+            (Err(Panicked::Msg(m)), false) => self.fail(mon | MON_VALID, format!("{}:panic", ctx), format!("{}: panicked unexpectedly: {}", ctx, m)),
+            (Err(Panicked::Injected), false) => self.fail(mon, format!("{}:panic", ctx), format!("{}: injected fault without fault mode", ctx)),
             _ => {}
         }
     }
